@@ -349,6 +349,11 @@ func (q *ProvideQueue) DrainDatastore(ctx context.Context, d ds.Batching) error 
 
 		// Key format: "/position/prefix"
 		parts := strings.Split(strings.TrimPrefix(result.Key, "/"), "/")
+		if len(parts) == 1 {
+			// The empty prefix is persisted as "/position": ds.NewKey cleans the
+			// trailing slash of "position/".
+			parts = append(parts, "")
+		}
 		if len(parts) != 2 {
 			continue // Skip invalid keys
 		}
